@@ -1538,7 +1538,8 @@ try_ready_chunked_body (struct MHD_Connection *connection,
   size_t size_to_fill;
 
   response = connection->rp.response;
-  mhd_assert (NULL != response->crc || NULL != response->data);
+  mhd_assert ((NULL != response->crc) || (NULL != response->data) || \
+              (NULL != response->data_iov));
 
   mhd_assert (0 == connection->write_buffer_append_offset);
 
@@ -1610,6 +1611,35 @@ try_ready_chunked_body (struct MHD_Connection *connection,
     memcpy (&connection->write_buffer[max_chunk_hdr_len],
             &response->data[data_write_offset],
             (size_t) ret);
+  }
+  else if (NULL != response->data_iov)
+  {
+    /* iovec-based response (no single buffer, no callback): gather
+       the data for this chunk from the elements of the array */
+    uint64_t skip = connection->rp.rsp_write_position;
+    size_t filled = 0;
+    unsigned int k;
+
+    for (k = 0; (k < response->data_iovcnt) && (filled < size_to_fill); ++k)
+    {
+      const size_t el_len = (size_t) response->data_iov[k].iov_len;
+      size_t cp_len;
+
+      if (skip >= el_len)
+      {
+        skip -= el_len;
+        continue;
+      }
+      cp_len = el_len - (size_t) skip;
+      if (cp_len > size_to_fill - filled)
+        cp_len = size_to_fill - filled;
+      memcpy (&connection->write_buffer[max_chunk_hdr_len + filled],
+              ((const char *) response->data_iov[k].iov_base) + (size_t) skip,
+              cp_len);
+      filled += cp_len;
+      skip = 0;
+    }
+    ret = (ssize_t) filled;
   }
   else
   {
